@@ -692,6 +692,11 @@ func (q *quaiInst) mutSig(cls string) {
 		q.sigVar = fmt.Sprint("#", i)
 	}
 	q.sigCls = cls
+	// the abstract identity of a malformed signature is its concrete value (several variants per class)
+	q.sigVar = fmt.Sprintf(":%x:%x:%x", q.V.Bytes(), q.R.Bytes(), q.S.Bytes())
+	if q.V.Sign() < 0 {
+		q.sigVar += "-"
+	}
 }
 
 // ---------------------------------------------------------------- Qi instantiation
